@@ -521,6 +521,51 @@ def k_batch(ctx: Ctx):
 # ---------------------------------------------------------------------------
 # K3  sessions on basis states
 # ---------------------------------------------------------------------------
+def run_session(ctx: Ctx, rng, be, lst, n, calls):
+    """one call sequence on the real estimators of one backend, starting from an empty conversion cache"""
+    cache = lst[0][1]["cache"]._operator_cache
+    cache.clear()
+    real = []
+    for kind, os_, ss in calls:
+        cands = [(nm, ep) for nm, ep in lst if (kind == "one") or ep["kind"] == kind]
+        nm, ep = rng.choice(cands)
+        rops = [real_est(rng, e) for e in os_]
+        rstates = [basis_state(rng, n, b, be) for _, b in ss]
+        try:
+            if kind == "one":
+                if ep.get("one_is_conc"):
+                    nm, ep = lst[0]
+                rs = [ep["one"](rops[0], rstates[0])]
+            else:
+                rs = list(ep["conc"](rops, rstates))
+            vals = []
+            na, nb = len(os_), len(ss)
+            for idx, r in enumerate(rs):
+                oe = sb = None
+                if kind == "one":
+                    oe, sb = os_[0], ss[0]
+                elif doc_batch(na, nb).startswith("ok") and idx < max(na, nb):
+                    oe, sb = os_[0 if na == 1 else idx], ss[0 if nb == 1 else idx]
+                if oe is not None:
+                    w = c04ref.basis_expectation([(l, cplx(c)) for l, c in est_terms(oe)], n, sb[1])
+                    if abs(complex(r.value) - w) > 1e-9 or r.error != 0.0:
+                        ctx.witness(f"wrong-value:{nm}", f"{nm} differs from the exact value on a computational basis state "
+                                    "(call sequence on an initially empty conversion cache)",
+                                    {"kind": "session", "backend": be, "calls": [(k2, [enc_est(x) for x in o2], s2) for k2, o2, s2 in calls]},
+                                    {"call": len(real), "index": idx, "got": str(r), "want": str(w)})
+                f = fix(r.value)
+                vals.append(f"{f[0]}/{f[1]}e{0 if r.error == 0.0 else repr(r.error)}" if isinstance(f, tuple) else f)
+            real.append(f"ok:{','.join(vals)}~{len(cache)}")
+        except IndexError:
+            real.append("err:IndexError")
+            break
+        except Exception as e:  # noqa: BLE001
+            real.append("err:" + batch_err_kind(e))
+        ctx.count(f"session.{be}", f"{kind}:{nm}")
+    cache.clear()
+    return real
+
+
 def k_sessions(ctx: Ctx):
     rng = ctx.rng
     eps = entry_points()
@@ -553,46 +598,7 @@ def k_sessions(ctx: Ctx):
     for be, lst in by_be.items():
         reqs, reals = [], []
         for n, calls in sessions:
-            cache = lst[0][1]["cache"]._operator_cache
-            cache.clear()
-            real = []
-            for kind, os_, ss in calls:
-                cands = [(nm, ep) for nm, ep in lst if (kind == "one") or ep["kind"] == kind]
-                nm, ep = rng.choice(cands)
-                rops = [real_est(rng, e) for e in os_]
-                rstates = [basis_state(rng, n, b, be) for _, b in ss]
-                try:
-                    if kind == "one":
-                        if ep.get("one_is_conc"):
-                            nm, ep = lst[0]
-                        rs = [ep["one"](rops[0], rstates[0])]
-                    else:
-                        rs = list(ep["conc"](rops, rstates))
-                    vals = []
-                    na, nb = len(os_), len(ss)
-                    for idx, r in enumerate(rs):
-                        oe = sb = None
-                        if kind == "one":
-                            oe, sb = os_[0], ss[0]
-                        elif doc_batch(na, nb).startswith("ok") and idx < max(na, nb):
-                            oe, sb = os_[0 if na == 1 else idx], ss[0 if nb == 1 else idx]
-                        if oe is not None:
-                            w = c04ref.basis_expectation([(l, cplx(c)) for l, c in est_terms(oe)], n, sb[1])
-                            if abs(complex(r.value) - w) > 1e-9 or r.error != 0.0:
-                                ctx.witness(f"wrong-value:{nm}", f"{nm} differs from the exact value on a computational basis state "
-                                            "(call sequence on an initially empty conversion cache)",
-                                            {"kind": "session", "backend": be, "calls": [(k2, [enc_est(x) for x in o2], s2) for k2, o2, s2 in calls]},
-                                            {"call": len(real), "index": idx, "got": str(r), "want": str(w)})
-                        f = fix(r.value)
-                        vals.append(f"{f[0]}/{f[1]}e{0 if r.error == 0.0 else repr(r.error)}" if isinstance(f, tuple) else f)
-                    real.append(f"ok:{','.join(vals)}~{len(cache)}")
-                except IndexError:
-                    real.append("err:IndexError")
-                    break
-                except Exception as e:  # noqa: BLE001
-                    real.append("err:" + batch_err_kind(e))
-                ctx.count(f"session.{be}", f"{kind}:{nm}")
-            cache.clear()
+            real = run_session(ctx, rng, be, lst, n, calls)
             reqs.append("c04session " + " @@ ".join(
                 f"{kind}~{'&'.join(enc_est(e) for e in os_)}~{'&'.join(f'{a}.{b}' for a, b in ss)}" for kind, os_, ss in calls))
             reals.append("@@".join(real))
@@ -1548,6 +1554,14 @@ def replay_file(ctx: Ctx, path):
                     sp["vec"] = [complex(x) if not isinstance(x, str) else complex(x.replace(" ", "")) for x in sp["vec"]]
             numeric_eval(ctx, ctx.rng, eps, inp["n"], [dec_est(t) for t in inp["ops"]], inp["states"], inp["shape"], inp.get("clifford", False))
             done += 1
+        elif kind == "session":
+            lst = [(nm, ep) for nm, ep in eps.items() if ep["be"] == inp["backend"]]
+            calls = [(k2, [dec_est(t) for t in o2], [tuple(x) for x in s2]) for k2, o2, s2 in inp["calls"]]
+            nq = max([x[0] for _, _, s2 in calls for x in s2], default=1)
+            if lst:
+                for _ in range(8):  # the entry point of each call is drawn at random: try several assignments
+                    run_session(ctx, ctx.rng, inp["backend"], lst, nq, calls)
+                done += 1
         elif kind == "batch" and inp.get("entry") in eps:
             from quri_parts.core.operator import Operator
 
